@@ -140,3 +140,7 @@ Extraction "model_parse.ml" parse_src Parse.parse parse_expr Lex.lex Print.pp_st
 From Ucg Require Import data.Toml.
 Extraction "model_toml.ml" to_toml toml_emit toml_output ser_root toml_parse spec_data doc_canon doc_eqb toml_rt_ok
   emit_value_str escape_key float_text parse_string parse_key classify_tok dec_of_Z.
+
+(* C03: the YAML output model (converter + serde_yaml 0.9.34 serializer + the libyaml emitter), the independent reader and the specification *)
+From Ucg Require Import data.Yaml.
+Extraction "model_yaml.ml" to_yaml yaml_emit yaml_output yaml_parse Yaml.spec_data Yaml.doc_eqb yaml_rt_ok dec_of_Z.
